@@ -95,6 +95,23 @@ def insertAll (h : κ → Nat) : Tbl κ → List κ → Option (Tbl κ)
 /-- allocate_mapping(n): a power of two of empty buckets, `unfilled = size * FILL_PERCENT / 100` -/
 def empty (e : Nat) : Tbl κ := ⟨List.replicate (2 ^ e) [], 2 ^ e * fillPercent / 100⟩
 
+/-- smallest power of two above `n` (what the or-smear `n |= n >> 1; n |= n >> 2; n |= n >> 4; if (n & 0xff00) n |= n >> 8;
+    n++` of allocate_mapping computes for 8 < n < 65536) — compared with the real table sizes by the run, not proved
+    against the smear -/
+def pow2Above (n : Nat) : Nat → Nat → Nat
+  | 0, p => p
+  | fuel + 1, p => if p > n then p else pow2Above n fuel (p * 2)
+
+/-- `allocate_mapping(n)`: `MAP_HASH_TABLE_SIZE` buckets for small `n`, else the next power of two above `n`;
+    `unfilled = size * FILL_PERCENT / 100` -/
+def allocate (n : Nat) : Tbl κ :=
+  let size := if n > NV.Gen.C16.mapHashTableSize then pow2Above n 20 1 else NV.Gen.C16.mapHashTableSize
+  ⟨List.replicate size [], size * fillPercent / 100⟩
+
+/-- `svalue_to_int` of an integer key: `(int) MAP_POINTER_HASH(x)` = the 64-bit number shifted right arithmetically,
+    truncated to 32 bits; read as unsigned (only `& mask` with masks below 2^16 is ever applied) -/
+def intKeyHash (x : Int) : Nat := ((x / (2 ^ NV.Gen.C16.hashShift : Int)) % (2 ^ 32 : Int)).toNat
+
 /-- the structural invariant every lookup relies on: the number of buckets is a power of two and every node sits in
     the bucket its hash selects -/
 def WF (h : κ → Nat) (t : Tbl κ) : Prop :=
